@@ -122,9 +122,6 @@ def faultsAt (rec : Ty → Json → DRes (List Fault)) (ss : Schemas) (pkg : Str
     | .arr xs => faultsIdx (elemFaults ss rec e) 0 xs
     | _ => .ok [{ path := [], kind := .wrongType }]
   | .map (.scalar "string" _ _ _) e _ =>
-    if elemIsNonScalarMap ss e then
-      .unsup "map of maps of non-scalars (outside the modelled fragment: the generated decoder rejects every non-empty document here)"
-    else
     match j with
     | .obj kvs => faultsKey (elemFaults ss rec e) kvs
     | _ => .ok [{ path := [], kind := .wrongType }]
